@@ -149,6 +149,10 @@ class HyperRAMInterface(Elaboratable):
             is_read
         ))
 
+        # Keep track of the previous value of our request strobe; so we can detect its rising edge.
+        last_start_transfer = Signal()
+        m.d.sync += last_start_transfer.eq(self.start_transfer)
+
         with m.FSM() as fsm:
 
             # IDLE state: waits for a transaction request
@@ -158,7 +162,9 @@ class HyperRAMInterface(Elaboratable):
 
                 # Once we have a transaction request, latch in our control
                 # signals, and assert our chip-select.
-                with m.If(self.start_transfer):
+                # (The request strobe may stay high for up to eight cycles; which is longer than our
+                # shortest transaction. Only a new strobe starts a new transaction.)
+                with m.If(self.start_transfer & ~last_start_transfer):
                     m.next = 'LATCH_RWDS'
 
                     m.d.sync += [
